@@ -7,6 +7,10 @@ Tr == ndJsonDeserialize("trace.ndjson")
 VARIABLES l, bad, cnt
 ClauseIds == {"C11_a", "C11_b", "C11_c"}
 
+\* violations are collected up to a cap, but the first violation of every clause is always kept: a flood of violations of one
+\* clause (another property's) must not hide the only violation of another
+KeepBad(b, v) == Len(b) < 300 \/ \E c \in v : \A i \in DOMAIN b : c \notin b[i].ids
+
 TInit == l = 1 /\ bad = <<>> /\ cnt = [c \in ClauseIds |-> 0] /\ done = FALSE
 
 Step ==
@@ -19,7 +23,7 @@ Step ==
                 \cup (IF b /\ ev.rok THEN {"C11_b"} ELSE {})
                 \cup (IF ev.panic THEN {"C11_c"} ELSE {})
            tags == IF ev.panic /\ PanicsInReflect(ev.top, ev.n, ev.path) THEN {"reflect-nil-embedded"} ELSE {}
-       IN /\ bad' = IF v # {} /\ Len(bad) < 300 THEN Append(bad, [l |-> l, sid |-> "vec", i |-> ev.id, ids |-> v, tags |-> tags]) ELSE bad
+       IN /\ bad' = IF v # {} /\ KeepBad(bad, v) THEN Append(bad, [l |-> l, sid |-> "vec", i |-> ev.id, ids |-> v, tags |-> tags]) ELSE bad
           /\ cnt' = [c \in ClauseIds |-> cnt[c] + (IF (c = "C11_a" /\ a) \/ (c = "C11_b" /\ b) \/ c = "C11_c" THEN 1 ELSE 0)]
   /\ l' = l + 1
   /\ UNCHANGED done
